@@ -45,6 +45,8 @@ TABLE = {
  "once() waits the real time until its local time across a DST change": ("C06", "@time_trigger('once(18:00)') started 2020-03-07 17:00 US/Pacific: the run of 2020-03-08 came at 19:00 local (24 h of real time after the previous one) in both subsystems"),
  "time trigger wake-up check compares the clock with the local trigger time": ("C06", "new subsystem, @time_trigger('cron(0 18 * * *)') across 2020-11-01: the run came at 19:00 local; cron(1 1-4 * * *): 2:01 an hour late, 3:01 never"),
  "time trigger does not run twice when woken just before the trigger time": ("C06", "new subsystem, @time_trigger('period(0:00, 1h)') with the wall clock 1 us behind the timer: the 1:00 instant ran twice (trigger_time 01:00 both times)"),
+ "@time_active checks its arguments together": ("C07", "new subsystem: @event_trigger('ev') @time_active('range(8:00, 22:00)', 'not range(12:00, 13:00)') ran at 12:30; @time_active('not range(8:00, 11:00)', 'not range(12:00, 13:00)') ran at 12:59:59.999999 (each argument was evaluated on its own, first match wins)"),
+ "hold_off counts from the last trigger that ran the function": ("C07", "new subsystem: @time_active(hold_off=10) above @event_trigger above @state_active(\"pyscript.gate == '1'\"), occurrences at 0, 11, 20, 29 s with the gate open, closed, open, open: the occurrence at 20 s was ignored (the rejected one at 11 s restarted the hold_off) and the one at 29 s ran"),
 }
 log = subprocess.run(["git", "-C", "/repo", "log", "--reverse", "--format=%h %s"], capture_output=True, text=True).stdout.strip().split("\n")
 fixed = []
